@@ -91,7 +91,7 @@ class Acc:
         v = self.viol.setdefault(signature, {'count': 0, 'cases': []})
         v['count'] += 1
         if len(v['cases']) < MAX_KEEP_PER_SIG:
-            v['cases'].append((jsonable(case), jsonable(detail)))
+            v['cases'].append((jsonable(case), jsonable(detail), self.shard_index))
 
     def merge(self, other):
         self.states += other.states
@@ -114,17 +114,86 @@ _TIER = None
 _SEED = 0
 
 
+MAX_GROUPS = 64
+
+
+def _groups(shards):
+    """Deterministic grouping of the shards into at most MAX_GROUPS groups (independent of the seed). Every group runs in
+    its own freshly forked process, so the history a case can depend on is exactly the cases of its group before it."""
+    n = len(shards)
+    G = min(n, MAX_GROUPS) or 1
+    return [[(i, shards[i]) for i in range(n) if i % G == g] for g in range(G)]
+
+
 def _work(arg):
-    idx, shard = arg
-    acc = Acc(_SEED, idx)
+    gidx, members = arg
+    acc = Acc(_SEED, gidx)
     t0 = time.time()
+    for idx, shard in members:
+        try:
+            _MOD.run_shard(shard, _TIER, acc)
+        except bind.HarnessError as e:
+            return ('harness', idx, f'{e}')
+        except Exception as ex:
+            # Safety net: an exception that escapes a property module is a harness bug - unless it was raised INSIDE the
+            # tree under test, in which case the code under test failed where the module did not expect it: a violation.
+            tb = traceback.extract_tb(ex.__traceback__)
+            last = tb[-1] if tb else None
+            if last is not None and os.path.realpath(last.filename).startswith(bind.REPO + os.sep):
+                sig = (f'unhandled-exception-in-code-under-test:{type(ex).__name__}:'
+                       f'{os.path.basename(last.filename)}:{last.name}')
+                acc.violation(sig, {'engine_crash': True, 'shard': idx}, traceback.format_exc()[-1500:])
+                acc.count('shards_aborted_by_exception_in_code_under_test')
+                continue
+            return ('crash', idx, traceback.format_exc())
+    return ('ok', gidx, acc, time.time() - t0)
+
+
+PRELOAD = [
+    'singlecellmultiomics.molecule', 'singlecellmultiomics.fragment', 'singlecellmultiomics.features',
+    'singlecellmultiomics.alleleTools', 'singlecellmultiomics.barcodeFileParser.barcodeFileParser',
+    'singlecellmultiomics.bamProcessing.bamFunctions', 'singlecellmultiomics.bamProcessing.bamBinCounts',
+    'singlecellmultiomics.bamProcessing.bamToCountTable', 'singlecellmultiomics.utils.binning',
+    'singlecellmultiomics.utils.sequtils', 'singlecellmultiomics.pyutils.handlelimiter',
+    'singlecellmultiomics.fastqProcessing.fastqHandle', 'singlecellmultiomics.fastqProcessing.fastqIterator',
+    'singlecellmultiomics.modularDemultiplexer.demultiplexingStrategyLoader',
+    'singlecellmultiomics.universalBamTagger.bamtagmultiome', 'singlecellmultiomics.universalBamTagger.tagging',
+    'singlecellmultiomics.molecule.taps', 'singlecellmultiomics.molecule.featureannotatedmolecule',
+]
+
+
+def _preload():
+    """import the package's modules in the parent so that the per-shard forked children start warm; an import that
+    fails here fails in the shard too, where it is reported"""
+    import importlib
+    for name in PRELOAD:
+        try:
+            importlib.import_module(name)
+        except Exception:
+            pass
+
+
+def _replay_case(case):
     try:
-        _MOD.run_shard(shard, _TIER, acc)
-    except bind.HarnessError as e:
-        return ('harness', idx, f'{e}')
+        return [(s, jsonable(d)) for s, d in _MOD.replay(case)]
     except Exception:
-        return ('crash', idx, traceback.format_exc())
-    return ('ok', idx, acc, time.time() - t0)
+        return traceback.format_exc()
+
+
+def _replay_in_child(case):
+    ctx = multiprocessing.get_context('fork')
+    with ctx.Pool(1) as pool:
+        return pool.apply(_replay_case, (case,))
+
+
+def _rerun_shard(shard, idx):
+    """run one shard again in a fresh forked process; returns its Acc or None"""
+    ctx = multiprocessing.get_context('fork')
+    with ctx.Pool(1) as pool:
+        res = pool.apply(_work, ((idx, shard),))
+    if res[0] != 'ok':
+        return None
+    return res[2]
 
 
 def case_size(case):
@@ -138,6 +207,7 @@ def run_property(mod, tier, seed, replay_path=None):
     t0 = time.time()
     try:
         bind.bind()
+        _preload()
         if hasattr(mod, 'setup'):
             mod.setup()
     except bind.HarnessError as e:
@@ -148,12 +218,13 @@ def run_property(mod, tier, seed, replay_path=None):
         return do_replay(mod, replay_path)
 
     shards = list(mod.shards(tier))
-    n_shards = len(shards)
+    groups = _groups(shards)
+    n_shards = len(groups)
     order = list(range(n_shards))
     if n_shards > 1:
         r = seed % n_shards          # the seed rotates the visiting order only
         order = order[r:] + order[:r]
-    jobs = [(i, shards[i]) for i in order]
+    jobs = [(g, groups[g]) for g in order]
     ncpu = int(os.environ.get('VERIF_JOBS', os.cpu_count() or 1))
     total = Acc(seed, 0)
     done = 0
@@ -163,7 +234,8 @@ def run_property(mod, tier, seed, replay_path=None):
         pool = None
     else:
         ctx = multiprocessing.get_context('fork')
-        pool = ctx.Pool(min(ncpu, n_shards))
+        # one fresh forked process per shard group: the history a case can depend on is exactly its group
+        pool = ctx.Pool(min(ncpu, n_shards), maxtasksperchild=1)
         results = pool.imap_unordered(_work, jobs, chunksize=1)
     try:
         for res in results:
@@ -180,7 +252,7 @@ def run_property(mod, tier, seed, replay_path=None):
         for kind, idx, msg in errors[:3]:
             print(f'ERROR {pid} shard {idx} {kind}: {msg}')
         return 2
-    exhaustive = (done == n_shards)
+    exhaustive = (done == n_shards) and not total.extra.get('shards_aborted_by_exception_in_code_under_test')
 
     # ---- violations: known-findings, determinism gate, replay files
     known = findings_mod.load(pid)
@@ -198,18 +270,32 @@ def run_property(mod, tier, seed, replay_path=None):
                          f"[signature={sig} cases={total.viol[sig]['count']}]")
     for sig in new_sigs:
         cases = sorted(total.viol[sig]['cases'], key=lambda cd: (case_size(cd[0]), json.dumps(cd[0], sort_keys=True, default=repr)))
-        case, detail = cases[0]
+        case, detail, shard_idx = cases[0]
         # determinism gate: the recorded case must fail identically when re-run from its description
-        try:
-            again = mod.replay(case)
-        except Exception:
-            print(f'ERROR {pid} replay raised for signature {sig}: {traceback.format_exc()}')
+        # (run in a forked child: the parent never executes the code under test after setup(), so the main run, the
+        # replays and the group re-runs all start from the same process state)
+        again = [] if (isinstance(case, dict) and case.get('engine_crash')) else _replay_in_child(case)
+        if isinstance(again, str):
+            print(f'ERROR {pid} replay raised for signature {sig}: {again}')
             return 2
         again_sigs = [s for s, _ in again]
         if sig not in again_sigs:
-            print(f'ERROR {pid} nondeterministic: case reported {sig!r} but replay gives {again_sigs!r}: '
-                  f'{json.dumps(case, default=repr)[:400]}')
-            return 2
+            # The case alone does not fail. Either the harness is nondeterministic, or the failure depends on the
+            # HISTORY of calls made before it in the same process (state kept by the code under test between calls).
+            # Decide by re-running the complete shard in a fresh process: the same schedule must fail the same way.
+            res = _rerun_shard(groups[shard_idx], shard_idx)
+            same = (res is not None and sig in res.viol and
+                    any(json.dumps(c[0], sort_keys=True, default=repr) == json.dumps(case, sort_keys=True, default=repr)
+                        for c in res.viol[sig]['cases']))
+            if not same:
+                print(f'ERROR {pid} nondeterministic: case reported {sig!r} but replay gives {again_sigs!r} and a fresh run '
+                      f'of shard {shard_idx} does not reproduce it: {json.dumps(case, default=repr)[:400]}')
+                return 2
+            sig_out = sig
+            case = {'history_dependent': True, 'shard_index': shard_idx, 'tier': tier, 'case': case,
+                    'note': 'fails only after the preceding cases of this shard group ran in the same process '
+                            '(state carried between calls by the code under test)'}
+            out_lines.append(f'  note: signature={sig} is history dependent: reproduces by re-running shard group {shard_idx}, not from the single case')
         path = findings_mod.write_replay(pid, sig, case, detail, total.viol[sig]['count'])
         out_lines.append(f'VIOLATION property={pid} replay={path}')
         out_lines.append(f'  signature={sig} cases={total.viol[sig]["count"]} detail={json.dumps(detail, default=repr)[:300]}')
@@ -232,7 +318,8 @@ def run_property(mod, tier, seed, replay_path=None):
         'bounds': jsonable(mod.bounds(tier)),
         'distinct_outcomes': len(total.outcomes),
         'outcome_histogram': dict(sorted(total.outcomes.items(), key=lambda kv: -kv[1])[:12]),
-        'shards': n_shards,
+        'shards': len(shards),
+        'shard_groups': n_shards,
         'workers': ncpu,
         'counters': total.extra,
         'known_findings_hit': [s for s, _ in known_hit],
@@ -269,6 +356,18 @@ def do_replay(mod, path):
     with open(path) as f:
         rec = json.load(f)
     case = rec['case']
+    if isinstance(case, dict) and case.get('history_dependent'):
+        global _TIER
+        _TIER = case['tier']
+        groups = _groups(list(mod.shards(case['tier'])))
+        acc = _rerun_shard(groups[case['shard_index']], case['shard_index'])
+        sig = rec['signature']
+        if acc is not None and sig in acc.viol:
+            print(f'VIOLATION property={mod.ID} replay={os.path.abspath(path)}')
+            print(f'  signature={sig} (history dependent, shard {case["shard_index"]}) cases={acc.viol[sig]["count"]}')
+            return 1
+        print(f'{mod.ID} replay: shard {case["shard_index"]} no longer reports {sig}')
+        return 0
     res = mod.replay(case)
     if not res:
         print(f'{mod.ID} replay: no violation for {json.dumps(case, default=repr)[:300]}')
